@@ -9,6 +9,7 @@ use crate::props::c03::{identity_sweep, Variant};
 use fnv::FnvHasher;
 use probminhash::densminhash::{OptDensMinHash, RevOptDensMinHash};
 use probminhash::nohasher::NoHashHasher;
+use rayon::prelude::*;
 use serde_json::{json, Value};
 
 fn dens_views<S: Dens>(m: usize, items: &[u64]) -> Result<Vec<Vec<u64>>, String> {
@@ -64,6 +65,7 @@ pub fn run(ctx: &Ctx) -> i32 {
     let ms: Vec<usize> = vec![1, 2, 3, 5, 8, 16, 33, 64];
     let mut idetails = Vec::new();
     let mut totals = (0u64, 0u64, 0u64);
+    let mut evals = 0u64;
     identity_sweep(ctx, "C08", &variants(), &ms, &block, umax, &mut idetails, &mut totals);
     identity_sweep(ctx, "C08", &variants()[..2], &[2, 8, 64], &block2, umax.min(4), &mut idetails, &mut totals);
     // non-vacuity: how much of the sketch is produced by densification
@@ -73,9 +75,25 @@ pub fn run(ctx: &Ctx) -> i32 {
         fill.push(json!({"m": m, "set_size": 3, "fraction_of_bins_filled_by_densification": f}));
     }
     println!("C08 identity: {} subset triples, {} sketches, {} (triple,view,position) comparisons; densified fraction at m=64, |S|=3: {}", totals.0, totals.1, totals.2, fill.last().map(|v| v["fraction_of_bins_filled_by_densification"].clone()).unwrap_or(json!(null)));
+    // ---- resolution of the per-item uniform value (f64 sketchers): two different items must not share their value, otherwise
+    // large sets (many items per bin) tie at the bin minimum and the float view collides on different items (bias above J).
+    // With 52-bit uniforms the expected number of coinciding pairs among 2^18 items is 2^36/2^53 < 1e-5.
+    let n_res: u64 = ctx.pick(1 << 18, 1 << 21);
+    for (name, f) in [("OptDensMinHash<f64,Fnv>", opt::<f64, FnvHasher> as fn(usize, &[u64]) -> Result<Vec<Vec<u64>>, String>), ("RevOptDensMinHash<f64,Fnv>", rev::<f64, FnvHasher>)] {
+        let mut vals: Vec<u64> = (0..n_res).into_par_iter().filter_map(|i| f(1, &[(base << 4) + i]).ok().map(|v| v[0][0])).collect();
+        vals.sort_unstable();
+        let dup = vals.windows(2).filter(|w| w[0] == w[1]).count();
+        evals += n_res;
+        if dup > 0 || vals.len() as u64 != n_res {
+            ctx.violation(
+                &format!("C08-uniform-resolution:{}", name),
+                &format!("{}: among the single-item sketches (m=1) of {} different items, {} pairs share the same float value: the per-item uniform value does not have double resolution, so bins holding many items tie on different items and the float view over-estimates J", name, n_res, dup),
+                json!({"kind": "resolution", "variant": name, "n": n_res}),
+            );
+        }
+    }
     // ---- partition: dense and sparse regimes with large sets
     let mut pdetails = Vec::new();
-    let mut evals = 0u64;
     let cfgs: Vec<(&str, u64, u64, u64, usize, u64, u64)> = vec![
         // name, ca, cb, cab, m, T quick, T thorough
         ("dense 1000/1000/2000 m=64", 1000, 1000, 2000, 64, 200, 5000),
@@ -137,7 +155,7 @@ pub fn run(ctx: &Ctx) -> i32 {
         "exhaustive_scope": "the identity enumerates every labelling of every shape by the block; the partition part is a finite-population statement",
         "evaluations": totals.0 + evals,
         "distinct_nontrivial": totals.1,
-        "rule": "for OptDensMinHash and RevOptDensMinHash (f32/f64 float view, u64 view, u32 view; Fnv and no-op hashers), m in {1,2,3,5,8,16,33,64} (from m << |S| to m = 16|S|, > 90% of bins densified), every shape with union <=4 (5) and EVERY assignment of block identifiers (10 (13) ids, two blocks): per position and view, collisions * u == triples * |A∩B| exactly (a broken identity is arbitrated on 2e5 fresh labellings before it is reported); distinct = distinct subsets sketched; plus 6 large-set shapes x 4 variants x 3 views on T disjoint labellings within 6 standard errors of J",
+        "rule": "for OptDensMinHash and RevOptDensMinHash (f32/f64 float view, u64 view, u32 view; Fnv and no-op hashers), m in {1,2,3,5,8,16,33,64} (from m << |S| to m = 16|S|, > 90% of bins densified), every shape with union <=4 (5) and EVERY assignment of block identifiers (10 (13) ids, two blocks): per position and view, collisions * u == triples * |A∩B| exactly (a broken identity is arbitrated on 2e5 fresh labellings before it is reported); distinct = distinct subsets sketched; plus the distinctness of the per-item uniform value over 2^18 (2^21) items for the f64 sketchers, and 6 large-set shapes x 4 variants x 3 views on T disjoint labellings within 6 standard errors of J",
         "identity": idetails,
         "identity_subset_triples": totals.0,
         "identity_comparisons": totals.2,
